@@ -46,7 +46,7 @@ def model_check(rep, work, tier):
 
     def job(a):
         name, cfg, workers = a
-        return name, vf.tlc_mc(work, "MC_MultiParse.tla", cfg, workers=workers, timeout=1500, meta=f"md-{name}")
+        return name, vf.tlc_mc(work, "MC_MultiParse.tla", cfg, workers=workers, timeout=3000, meta=f"md-{name}")
 
     small = [(f"viol-{inv}", f"MC_MultiParse_viol_{c}.cfg", 1) for inv, c in viol.items()]
     small += [(f"closed-{m}", f"MC_MultiParse_closed_{m}.cfg", 1) for m in ("faithful", "intended")]
@@ -96,7 +96,7 @@ def selftest(work, events, model):
             base = e
             break
     if base is None:
-        raise vf.ToolError("selftest: no clean two-input event to corrupt")
+        return 0
     variants = []
     a = json.loads(json.dumps(base)); a["obs"][0]["res"][0]["name"] += "x"; variants.append(("name", a))
     b = json.loads(json.dumps(base)); b["obs"][1]["res"].reverse(); variants.append(("order", b))
@@ -107,7 +107,11 @@ def selftest(work, events, model):
     for i, (_, v) in enumerate([("clean", base)] + variants):
         v["id"] = i
         lines.append(json.dumps(v))
-    verdicts, _, _ = vf.judge_events(work, "Trace_MultiParse.tla", "Trace_MultiParse.cfg", lines, chunk=50, jobs=1)
+    swork = Path(work) / "selftest"
+    (swork / "spec").mkdir(parents=True, exist_ok=True)
+    for f in (Path(work) / "spec").iterdir():
+        (swork / "spec" / f.name).write_bytes(f.read_bytes())
+    verdicts, _, _ = vf.judge_events(swork, "Trace_MultiParse.tla", "Trace_MultiParse.cfg", lines, chunk=50, jobs=1)
     by = {v["id"]: v for v in verdicts}
     if 0 in by and by[0].get("fail"):
         raise vf.ToolError(f"selftest: the uncorrupted event was rejected: {by[0]}")
@@ -116,13 +120,16 @@ def selftest(work, events, model):
     for i, clause in want.items():
         if i not in by or clause not in by[i].get("fail", []):
             raise vf.ToolError(f"selftest: corrupted field '{variants[i - 1][0]}' was not rejected with {clause}: {by.get(i)}")
-    # the files of the self-test must not be mistaken for evidence
-    for p in (Path(work) / "traces").glob("Trace_MultiParse.tla-*.ndjson"):
-        p.rename(p.with_suffix(".selftest"))
     return len(want)
 
 
 def run(prop, tier, seed, replay=None):
+    import time
+    t0 = time.time()
+
+    def lap(msg):
+        vf.log(f"[{time.time() - t0:6.1f}s] {msg}")
+
     rep = vf.Report(prop, tier, seed)
     vf.build_harness()
     work = vf.fresh_workdir(f"{prop}-{tier}")
@@ -132,6 +139,7 @@ def run(prop, tier, seed, replay=None):
         scns = [strip(payload["scenario"])]
     else:
         model = model_check(rep, work, tier)
+        lap("model checking done")
         scns = [strip(m) for m in model]
         nrand = 400 if tier == "quick" else 4000
         gen = work / "rand.scn.ndjson"
@@ -144,14 +152,16 @@ def run(prop, tier, seed, replay=None):
     p = harness(["run", "--scn", scn_file, "--out", ev_file, "--runs", runs, "--runs-big", runs_big, "--seed", seed,
                  "--pairs", 2 if tier == "quick" else 3, "--threads", 4])
     events = [l for l in ev_file.read_text().splitlines() if l.strip()]
-    vf.log(f"harness: {len(events)} input sets executed")
+    lap(f"harness: {len(events)} input sets executed")
     if len(events) != len(scns):
         raise vf.ToolError(f"harness recorded {len(events)} events for {len(scns)} scenarios")
-    nself = 0 if replay else selftest(work, events, model)
-    vf.log(f"selftest: {nself} corruptions rejected")
-    verdicts, st, tr = vf.judge_events(work, "Trace_MultiParse.tla", "Trace_MultiParse.cfg", events, chunk=500, jobs=4, timeout=1500)
+    verdicts, st, tr = vf.judge_events(work, "Trace_MultiParse.tla", "Trace_MultiParse.cfg", events, chunk=500, jobs=4, timeout=3000)
     rep.add_states(st, tr)
-    vf.log(f"trace spec: {len(events)} events judged, {len(verdicts)} not clean")
+    lap(f"trace spec: {len(events)} events judged, {len(verdicts)} not clean")
+    nself = 0 if replay else selftest(work, events, model)
+    lap(f"selftest: {nself} corruptions rejected")
+    if not replay and nself == 0 and not any(c.startswith("C20:") for v in verdicts for c in v.get("fail", [])):
+        raise vf.ToolError("selftest: no clean two-input event to corrupt although nothing was rejected")
     # ---- counts (measured on this run) ----
     calls = perms = ndat = multi = 0
     observed_dep = 0
@@ -183,6 +193,8 @@ def run(prop, tier, seed, replay=None):
     for m in model[:1] + model[len(model) // 2: len(model) // 2 + 1] + [m for m in model if len(m["reach"]) > 1][:2]:
         rep.sample({"form": m["form"], "ins": m["ins"], "main": m["main"], "expect": m["expect"],
                     "reach": [o["status"] for o in m["reach"]]})
+    if replay:
+        rep.sample({"replayed": scns[0]})
     rep.assumptions += [
         "spec/MultiParse.tla is the oracle: Meaning/Expect are the declarative reading of the Avro name rules, AllOutcomes the closed form of the state machine (agreement model-checked)",
         "the pick order of the pending HashMap is neither observable nor controllable without a source hook (proposed/C20-parser-hook.patch); order dependence is exposed by repeating every call with fresh hash seeds",
